@@ -10,6 +10,9 @@ search():     the property itself on the real code only (no model): recipients w
               inside the configured window / at the campaign points, acceptance = reference draw below the configured
               per-step coverage, treated <= capacity and from the head of the queue, non-recipients untouched, product
               effects as the table says, no infection of fully protected recipients.
+Round 3:      every run (both stages) includes I.fixed_cases_r3() and random cases from I.gen_case_r3(): eligibility rules whose
+              answer changes from step to step while agents wait in a capacity-limited queue; the recipients of a step are
+              compared with the rule evaluated independently ON THAT STEP (probe snapshot before the step).
 """
 import math, json, numpy as np
 from fractions import Fraction
@@ -21,7 +24,8 @@ GENERATED = ['DeliveryConsts']
 DRIVER = 'Drivers/C20.lean'
 DRIVER_MODULES = ['StarsimModel.Model.Intervention', 'StarsimModel.Model.Proto']
 RULE = ('cases = (kind in vx/screen/triage/treat) x (routine/campaign) x sim (dt in 0.1..2, 40-90 agents, SIR/SIS, optional deaths) x '
-        'window / years / coverage vector (valid and rejected) x eligibility rule (None, BoolArr, uids) x product (leaky / all-or-nothing / inert vaccine, '
+        'window / years / coverage vector (valid and rejected) x eligibility rule (None, BoolArr, uids; state- and STEP-dependent: closing enrolment, '
+        'alternate steps, rotating / shrinking cohorts, this step\'s screened agents, with a capacity backlog) x product (leaky / all-or-nothing / inert vaccine, '
         'Dx and Tx tables, capacity); every step of the run is one compared operation. distinct = distinct canonical protocol lines of the case; '
         'non-trivial = at least one step delivered to at least one agent or the schedule was rejected')
 TRUSTED = ['NumPy Generator.random is prefix-stable and a copied PCG64 state reproduces the stream (used to predict which eligible agents accept)',
@@ -295,7 +299,7 @@ def correspond(ctx):
     ncases = ctx.budget(48, 400)
     kinds = ['vx', 'vx', 'screen', 'triage', 'treat', 'vx', 'screen', 'treat']
     all_lines = []; per = []
-    cases = I.fixed_cases() + [I.gen_case(ctx.rng, kinds[k % len(kinds)]) for k in range(ncases)]
+    cases = I.fixed_cases() + I.fixed_cases_r3() + [I.gen_case_r3(ctx.rng, kinds[k % len(kinds)]) for k in range(ncases)]
     for case in cases:
         try:
             res = I.run_case(case)
@@ -543,14 +547,14 @@ def search(ctx):
     n = ctx.budget(32, 320)
     cases = [minimal_window_case(),
              dict(minimal_window_case(), sched=dict(years=[2005, 2006, 2007, 2008], prob=[0.1, 0.2, 0.4, 0.8], annual_prob=True))]
-    cases += I.fixed_cases()
+    cases += I.fixed_cases() + I.fixed_cases_r3()
     for kf in ctx.known:            # stored witnesses of the known findings are re-run on every run
         rp = kf.get('replay') or {}
         if isinstance(rp.get('case'), dict) and rp['case'] not in cases:
             cases.append(rp['case'])
     kinds = ['vx', 'screen', 'treat', 'vx', 'triage', 'treat', 'vx', 'screen']
     for k in range(n):
-        c = I.gen_case(ctx.rng, kinds[k % len(kinds)])
+        c = I.gen_case_r3(ctx.rng, kinds[k % len(kinds)])
         # the oracle is about valid configurations with real delivery: bias towards high coverage and transmission
         if c['kind'] == 'vx' and c['vaccine']['kind'] != 'inert' and ctx.rng.random() < 0.5:
             c['vaccine'] = dict(kind=ctx.rng.choice(['leaky', 'aon']), efficacy=1.0); c['sim']['beta'] = 1.5; c['elig'] = ctx.rng.choice(['susceptible', 'none', 'age_gt_30'])
